@@ -270,7 +270,7 @@ def evo_aspirate(
     # calculate tip_selection based on tips argument (tips are converted to evotools.Tip in _prepare_evo_aspirate_dispense_parameters)
     tip_selection = 0
     for tip in tips:
-        tip_selection += tip.value
+        tip_selection |= tip.value
 
     # prepare volume section (volume is converted to list in _prepare_evo_aspirate_dispense_parameters)
     tip_volumes = ""
@@ -347,7 +347,7 @@ def evo_dispense(
     # calculate tip_selection based on tips argument (tips are converted to evotools.Tip in _prepare_evo_aspirate_dispense_parameters)
     tip_selection = 0
     for tip in tips:
-        tip_selection += tip.value
+        tip_selection |= tip.value
 
     # prepare volume section (volume is converted to list in _prepare_evo_aspirate_dispense_parameters)
     tip_volumes = ""
@@ -627,5 +627,5 @@ def evo_wash(
     # calculate tip_selection based on tips argument
     tip_selection = 0
     for tip in tips:
-        tip_selection += tip.value
+        tip_selection |= tip.value
     return f'B;Wash({tip_selection},{waste_location[0]},{waste_location[1]},{cleaner_location[0]},{cleaner_location[1]},"{waste_vol}",{waste_delay},"{cleaner_vol}",{cleaner_delay},{airgap},{airgap_speed},{retract_speed},{fastwash},{low_volume},1000,{arm});'
